@@ -602,6 +602,81 @@ def _relabel(ctx: Context, rule_id: str) -> None:
         finding.rule = rule_id
 
 
+def _reported_later(prog: Program, func: FuncInfo, handler: ast.ExceptHandler, reporter: FuncInfo) -> bool:
+    """the handler keeps the exception in a local, and every way from there to the end of the function on which that
+    local is still set (its truth tests taken as true) reports or raises"""
+    if not handler.name:
+        return False
+    keeps = [stmt for stmt in handler.body if isinstance(stmt, ast.Assign) and isinstance(stmt.value, ast.Name) and stmt.value.id == handler.name
+             and len(stmt.targets) == 1 and isinstance(stmt.targets[0], ast.Name)]
+    if not keeps:
+        return False
+    local = keeps[0].targets[0].id  # type: ignore[attr-defined]
+    cfg = CFG(func.node, raising=lambda n: False)
+    start = cfg.stmt_node.get(id(keeps[0]))
+    if start is None:
+        return False
+    done: Set[int] = set()
+    seen: Set[int] = set()
+    for cnode in cfg.nodes:
+        if cnode.ast_node is None or cnode.kind != "stmt":
+            continue
+        if isinstance(cnode.ast_node, ast.Raise):
+            done.add(cnode.nid)
+        for call in [c for c in ast.walk(cnode.ast_node) if isinstance(c, ast.Call)]:
+            site = site_for(prog, func, call)
+            if site is not None and any(t == reporter or reporter.qualname in prog.reachable([t]) for t in site.targets):
+                done.add(cnode.nid)
+    work = [start]
+    while work:
+        current = work.pop()
+        if current in seen or current in done:
+            continue
+        seen.add(current)
+        if current == cfg.exit:
+            return False
+        cnode = cfg.nodes[current]
+        for dst, label in cfg.succ[current]:
+            if label not in ("next", "true", "false"):
+                continue
+            if cnode.kind == "cond" and isinstance(cnode.ast_node, ast.Name) and cnode.ast_node.id == local and label == "false":
+                continue  # the local holds the exception on this way
+            work.append(dst)
+    return True
+
+
+def r15o(ctx: Context) -> None:
+    """'The run reports the error naming the file': in the functions that process one file, a handler for a
+    plugin / parser / read failure either hands the exception to the per-file error reporter or lets it travel on
+    (raise) - on every path through the handler.  A handler that falls out of its end has swallowed the failure:
+    the run ends with the error result and says nothing about why or where."""
+    from sa.util import block_cfg
+
+    prog = ctx.prog
+    rule = ctx.rule("R15o", "every exception handler of the run driver reports the error (naming the file) or re-raises, on every path", 9)
+    reporter = prog.method(FSH, "__handle_scan_error")
+    for func in sorted(prog.cls(FSH).methods.values(), key=lambda f: f.qualname):  # every handler of the run driver
+        for node in walk_local(func.node):
+            if not isinstance(node, ast.ExceptHandler):
+                continue
+            key = f"{func.short}: except {norm(node.type) if node.type else ''} [reported]"
+            cfg = block_cfg(node.body)
+            blocked: Set[int] = set()
+            for cnode in cfg.nodes:
+                if cnode.ast_node is None or cnode.kind != "stmt":
+                    continue
+                if isinstance(cnode.ast_node, ast.Raise):
+                    blocked.add(cnode.nid)
+                for call in [c for c in ast.walk(cnode.ast_node) if isinstance(c, ast.Call)]:
+                    site = site_for(prog, func, call)
+                    if site is not None and any(t == reporter or reporter.qualname in prog.reachable([t]) for t in site.targets):
+                        blocked.add(cnode.nid)
+            if cfg.exit in cfg.reachable_from([cfg.entry], blocked=blocked) and not _reported_later(prog, func, node, reporter):
+                rule.fail(key, where(func, node), f"a path through this handler of {func.short} neither reports the exception through the per-file error reporter nor re-raises it: the file's failure is swallowed (the run ends as an error without a message naming the file)")
+            else:
+                rule.ok(key, "reported or re-raised on every path")
+
+
 def run(ctx: Context) -> None:
     ra = RaiseAnalysis(ctx.prog)
     r15a(ctx)
@@ -627,6 +702,7 @@ def run(ctx: Context) -> None:
     _relabel(ctx, "R15k")
     reported_means_failed(ctx)
     refused_write_back_is_an_error(ctx)
+    r15o(ctx)
     from sa.rules import c10
 
     # the per-run 'a file failed' flag accumulates: a later clean file cannot clear it
